@@ -152,7 +152,8 @@ def ref(base_uri, output_uri, factor, chunksize, nproc=1, columns=None, dtypes=N
                              map=pool.map if nproc > 1 else map)
         new_bins = it.new_bins
         kwargs.setdefault("append", True)
-        create(output_uri, new_bins, it, dtypes=dtypes, symmetric_upper=clr.storage_mode == "symmetric-upper", **kwargs)
+        create(output_uri, new_bins, it, columns=columns, dtypes=dtypes,
+               symmetric_upper=clr.storage_mode == "symmetric-upper", **kwargs)
     finally:
         if nproc > 1:
             pool.close()
